@@ -6,7 +6,7 @@
 From HailV Require Import Common.Prelude.
 
 Inductive var := U (n : N) | C (n : N).   (* U n: a program variable; C n: the renderer's [__cse_n] *)
-Inductive binop := Add | Sub | Mul.
+Inductive binop := Add | Sub | Mul | Div | Mod.   (* Div: `//` (floor division), Mod: `%` (floor modulus) *)
 Inductive unop := Neg | Not.
 Inductive cmpop := Lt | Le | Gt | Ge | Eq | Ne.
 
@@ -16,7 +16,8 @@ Inductive head :=
 | HIf | HLet (x : var) | HRef (x : var)
 | HMakeStruct (fs : list N) | HGetField (f : N)
 | HMakeArray | HArrayLen | HCastToArray | HToArray | HToStream
-| HStreamMap (x : var) | HStreamFilter (x : var) | HStreamFold (a x : var).
+| HStreamMap (x : var) | HStreamFilter (x : var) | HStreamFold (a x : var)
+| HIdx (neg : bool).   (* [HIdx false]: ArrayRef (0 <= i < n); [HIdx true]: Apply indexArray (-n <= i < n) *)
 
 (* [nstrm]: the object's [is_stream] (streams are never bound in a let) *)
 Inductive node := Node (id : N) (strm : bool) (h : head) (cs : list node).
@@ -212,7 +213,9 @@ Fixpoint pr (sts : list (N * site)) (X : node) (d mbd : nat) (ctx : ctxt) (lifte
 
 Definition cse (root : node) : node := fst (pr (analyse root) root 0 0 [] false []).
 
-(** *** values and evaluation (total: ill-typed applications give [VJunk]; int32 arithmetic wraps) *)
+(** *** values and evaluation.
+    [eval] is total: ill-typed applications and FAILING operations (integer division / modulus by zero, array index out of
+    bounds) give [VJunk]; int32 arithmetic wraps.  The semantics with errors is [evalE] below. *)
 Inductive value := VInt (z : Z) | VBool (b : bool) | VArr (l : list value) | VStruct (l : list (N * value)) | VJunk.
 
 Definition env := var -> value.
@@ -222,7 +225,12 @@ Definition wrap32 (z : Z) : Z := ((z + 2147483648) mod 4294967296 - 2147483648)%
 
 Definition do_bin (o : binop) (a b : value) : value :=
   match a, b with
-  | VInt x, VInt y => VInt (wrap32 (match o with Add => x + y | Sub => x - y | Mul => x * y end)%Z)
+  | VInt x, VInt y =>
+      match o with
+      | Add => VInt (wrap32 (x + y)) | Sub => VInt (wrap32 (x - y)) | Mul => VInt (wrap32 (x * y))
+      | Div => if (y =? 0)%Z then VJunk else VInt (wrap32 (x / y))
+      | Mod => if (y =? 0)%Z then VJunk else VInt (wrap32 (x mod y))
+      end
   | _, _ => VJunk
   end.
 Definition do_un (o : unop) (a : value) : value :=
@@ -242,26 +250,62 @@ Fixpoint get_field (l : list (N * value)) (f : N) : value :=
 Definition is_vtrue (v : value) : bool := match v with VBool true => true | _ => false end.
 Definition as_arr (v : value) : value := match v with VArr _ => v | _ => VJunk end.
 
+(* position of index [z] in an array of length [n] ([neg]: negative indices count from the end), if in bounds *)
+Definition idx_pos (neg : bool) (n z : Z) : option Z :=
+  if ((0 <=? z) && (z <? n))%Z then Some z
+  else if neg && ((- n <=? z) && (z <? 0))%Z then Some (n + z)%Z
+  else None.
+Definition do_idx (neg : bool) (a i : value) : value :=
+  match a, i with
+  | VArr l, VInt z => match idx_pos neg (Z.of_nat (length l)) z with Some p => nth (Z.to_nat p) l VJunk | None => VJunk end
+  | _, _ => VJunk
+  end.
+
+(** the operations that can FAIL at run time, and when they do *)
+Definition bin_fails (o : binop) (a b : value) : bool :=
+  match o, a, b with
+  | Div, VInt _, VInt y | Mod, VInt _, VInt y => (y =? 0)%Z
+  | _, _, _ => false
+  end.
+Definition idx_fails (neg : bool) (a i : value) : bool :=
+  match a, i with
+  | VArr l, VInt z => match idx_pos neg (Z.of_nat (length l)) z with Some _ => false | None => true end
+  | _, _ => false
+  end.
+Definition op_fails (h : head) (vs : list value) : bool :=
+  match h, vs with
+  | HBin o, [a; b] => bin_fails o a b
+  | HIdx neg, [a; i] => idx_fails neg a i
+  | _, _ => false
+  end.
+
+(** result of a head without binders / branches applied to the values of its children *)
+Definition apply_op (h : head) (vs : list value) : value :=
+  match h, vs with
+  | HI32 z, [] => VInt (wrap32 z)
+  | HTrue, [] => VBool true
+  | HFalse, [] => VBool false
+  | HBin o, [a; b] => do_bin o a b
+  | HUn o, [a] => do_un o a
+  | HCmp o, [a; b] => do_cmp o a b
+  | HMakeStruct fs, _ => VStruct (combine fs vs)
+  | HGetField f, [a] => match a with VStruct l => get_field l f | _ => VJunk end
+  | HMakeArray, _ => VArr vs
+  | HArrayLen, [a] => match a with VArr l => VInt (wrap32 (Z.of_nat (length l))) | _ => VJunk end
+  | HCastToArray, [a] => as_arr a
+  | HToArray, [a] => as_arr a
+  | HToStream, [a] => as_arr a
+  | HIdx neg, [a; i] => do_idx neg a i
+  | _, _ => VJunk
+  end.
+
 Fixpoint eval (t : node) (e : env) : value :=
   match t with
   | Node _ _ h cs =>
     match h, cs with
-    | HI32 z, [] => VInt (wrap32 z)
-    | HTrue, [] => VBool true
-    | HFalse, [] => VBool false
     | HRef x, _ => e x
-    | HBin o, [a; b] => do_bin o (eval a e) (eval b e)
-    | HUn o, [a] => do_un o (eval a e)
-    | HCmp o, [a; b] => do_cmp o (eval a e) (eval b e)
     | HIf, [c; a; b] => match eval c e with VBool true => eval a e | VBool false => eval b e | _ => VJunk end
     | HLet x, [a; b] => eval b (upd e x (eval a e))
-    | HMakeStruct fs, _ => VStruct (combine fs (map (fun c => eval c e) cs))
-    | HGetField f, [a] => match eval a e with VStruct l => get_field l f | _ => VJunk end
-    | HMakeArray, _ => VArr (map (fun c => eval c e) cs)
-    | HArrayLen, [a] => match eval a e with VArr l => VInt (wrap32 (Z.of_nat (length l))) | _ => VJunk end
-    | HCastToArray, [a] => as_arr (eval a e)
-    | HToArray, [a] => as_arr (eval a e)
-    | HToStream, [a] => as_arr (eval a e)
     | HStreamMap x, [a; b] =>
         match eval a e with VArr l => VArr (map (fun v => eval b (upd e x v)) l) | _ => VJunk end
     | HStreamFilter x, [a; b] =>
@@ -271,8 +315,176 @@ Fixpoint eval (t : node) (e : env) : value :=
         | VArr l => fold_left (fun acc v => eval b (upd (upd e ac acc) x v)) l (eval z e)
         | _ => VJunk
         end
-    | _, _ => VJunk
+    | _, _ => apply_op h (map (fun c => eval c e) cs)
     end
+  end.
+
+(** *** semantics with errors: a result is a value or [Err].  [Let] is strict (the bound expression is evaluated first, and
+    its failure is the failure of the whole), [If] evaluates its condition and then ONLY the branch taken, a loop evaluates
+    its body once per element (none for an empty stream), every other node evaluates all its children, then fails if its own
+    operation does. *)
+Inductive result := Val (v : value) | Err.
+
+Fixpoint evalE (t : node) (e : env) : result :=
+  match t with
+  | Node _ _ h cs =>
+    match h, cs with
+    | HRef x, _ => Val (e x)
+    | HIf, [c; a; b] =>
+        match evalE c e with
+        | Err => Err
+        | Val (VBool true) => evalE a e
+        | Val (VBool false) => evalE b e
+        | Val _ => Val VJunk
+        end
+    | HLet x, [a; b] => match evalE a e with Err => Err | Val v => evalE b (upd e x v) end
+    | HStreamMap x, [a; b] =>
+        match evalE a e with
+        | Err => Err
+        | Val (VArr l) =>
+            match (fix go (l : list value) : option (list value) :=
+                     match l with
+                     | [] => Some []
+                     | v :: r => match evalE b (upd e x v) with
+                                 | Err => None
+                                 | Val w => match go r with None => None | Some ws => Some (w :: ws) end
+                                 end
+                     end) l with
+            | None => Err
+            | Some ws => Val (VArr ws)
+            end
+        | Val _ => Val VJunk
+        end
+    | HStreamFilter x, [a; b] =>
+        match evalE a e with
+        | Err => Err
+        | Val (VArr l) =>
+            match (fix go (l : list value) : option (list value) :=
+                     match l with
+                     | [] => Some []
+                     | v :: r => match evalE b (upd e x v) with
+                                 | Err => None
+                                 | Val w => match go r with
+                                            | None => None
+                                            | Some ws => Some (if is_vtrue w then v :: ws else ws)
+                                            end
+                                 end
+                     end) l with
+            | None => Err
+            | Some ws => Val (VArr ws)
+            end
+        | Val _ => Val VJunk
+        end
+    | HStreamFold ac x, [a; z; b] =>
+        match evalE a e with
+        | Err => Err
+        | Val va =>
+            match evalE z e with
+            | Err => Err
+            | Val vz =>
+                match va with
+                | VArr l =>
+                    (fix go (l : list value) (acc : value) : result :=
+                       match l with
+                       | [] => Val acc
+                       | v :: r => match evalE b (upd (upd e ac acc) x v) with Err => Err | Val acc' => go r acc' end
+                       end) l vz
+                | _ => Val VJunk
+                end
+            end
+        end
+    | _, _ =>
+        match (fix go (cs : list node) : option (list value) :=
+                 match cs with
+                 | [] => Some []
+                 | c :: r => match evalE c e with
+                             | Err => None
+                             | Val v => match go r with None => None | Some vs => Some (v :: vs) end
+                             end
+                 end) cs with
+        | None => Err
+        | Some vs => if op_fails h vs then Err else Val (apply_op h vs)
+        end
+    end
+  end.
+
+(** the same semantics split into the value (computed by [eval]) and an error flag; [ee x] is the flag of the binding of
+    [x] (a reference to a variable whose bound expression failed fails).  Executable, used in the proofs. *)
+Definition benv := var -> bool.
+Definition updb (ee : benv) (x : var) (b : bool) : benv := fun y => if var_eqb x y then b else ee y.
+
+Fixpoint errsE (t : node) (e : env) (ee : benv) : bool :=
+  match t with
+  | Node _ _ h cs =>
+    match h, cs with
+    | HRef x, _ => ee x
+    | HIf, [c; a; b] =>
+        errsE c e ee || match eval c e with VBool true => errsE a e ee | VBool false => errsE b e ee | _ => false end
+    | HLet x, [a; b] => errsE a e ee || errsE b (upd e x (eval a e)) (updb ee x false)
+    | HStreamMap x, [a; b] =>
+        errsE a e ee || match eval a e with
+                        | VArr l => existsb (fun v => errsE b (upd e x v) (updb ee x false)) l
+                        | _ => false
+                        end
+    | HStreamFilter x, [a; b] =>
+        errsE a e ee || match eval a e with
+                        | VArr l => existsb (fun v => errsE b (upd e x v) (updb ee x false)) l
+                        | _ => false
+                        end
+    | HStreamFold ac x, [a; z; b] =>
+        errsE a e ee || errsE z e ee ||
+        match eval a e with
+        | VArr l =>
+            (fix go (l : list value) (acc : value) : bool :=
+               match l with
+               | [] => false
+               | v :: r => errsE b (upd (upd e ac acc) x v) (updb (updb ee ac false) x false)
+                           || go r (eval b (upd (upd e ac acc) x v))
+               end) l (eval z e)
+        | _ => false
+        end
+    | _, _ => existsb (fun c => errsE c e ee) cs || op_fails h (map (fun c => eval c e) cs)
+    end
+  end.
+
+(** *** side conditions of the error-semantics theorem *)
+Definition arity_ok (h : head) (n : nat) : bool :=
+  match h with
+  | HIf | HStreamFold _ _ => Nat.eqb n 3
+  | HLet _ | HStreamMap _ | HStreamFilter _ => Nat.eqb n 2
+  | _ => true
+  end.
+Fixpoint wf_arity (t : node) : bool :=
+  match t with Node _ _ h cs => arity_ok h (length cs) && forallb wf_arity cs end.
+
+Definition can_fail (h : head) : bool := match h with HBin Div | HBin Mod | HIdx _ => true | _ => false end.
+Fixpoint pure (t : node) : bool := match t with Node _ _ h cs => negb (can_fail h) && forallb pure cs end.
+
+(* child [k] of [h] is a loop body: evaluated once per element, possibly never *)
+Definition loop_body (h : head) (k : nat) : bool :=
+  match h, k with
+  | HStreamMap _, 1%nat | HStreamFilter _, 1%nat | HStreamFold _ _, 2%nat => true
+  | _, _ => false
+  end.
+
+Fixpoint subterms (t : node) : list node := match t with Node _ _ _ cs => t :: flat_map subterms cs end.
+Definition inclb (a b : list var) : bool := forallb (fun v => memv v b) a.
+
+(* the renderer lifts a shared subexpression to the outermost place where its variables are bound, across loop bodies (only
+   [If] branches stop it): [loops_ok] says that every subexpression of a loop body that is loop-invariant (all its free
+   variables are free in the body and none is bound by the loop) contains no operation that can fail *)
+Fixpoint loops_ok (t : node) : bool :=
+  match t with
+  | Node _ _ h cs =>
+    forallb loops_ok cs &&
+    (fix go (k : nat) (cs : list node) : bool :=
+       match cs with
+       | [] => true
+       | c :: r =>
+         (if loop_body h k
+          then forallb (fun D => pure D || negb (inclb (fv D) (removes (binds h k) (fv c)))) (subterms c)
+          else true) && go (S k) r
+       end) 0%nat cs
   end.
 
 (** input well-formedness: program variables only (no [__cse_] names), references are leaves *)
